@@ -153,6 +153,32 @@ Definition verify (c : config) (f : facts) (now : N) : verdict :=
 
 Definition accepts (v : verdict) : bool := match v with Accept => true | _ => false end.
 
+(* A verifier that takes the digests over EVERY certificate of the certificate message instead of
+   the peer's own (rawCerts[0]) only — seeded change C09-H.  [rest] holds the facts (the digests
+   are what matters) of rawCerts[1..]: elements the peer chooses freely and that nothing
+   authenticates.  Kept only to be refuted (Proofs/Tls.v [pin_any_certificate_refuted_proof]). *)
+Definition pins_step_any (pins : list bytes) (f : facts) (rest : list facts) : verdict :=
+  match pins_step pins f with
+  | Refuse w =>
+    if (w =? R_PINMISS) && existsb (fun g => accepts (pins_step pins g)) rest then Accept
+    else Refuse w
+  | Accept => Accept
+  end.
+
+Definition verify_any (c : config) (f : facts) (rest : list facts) (now : N) : verdict :=
+  if negb (f_present f) then Refuse R_NOCERT
+  else if negb (f_parses f) then Refuse R_PARSE
+  else match role_of (c_vtype c) with
+       | None => Refuse R_VTYPE
+       | Some r =>
+         match pins_step_any (c_pins c) f rest with
+         | Refuse w => Refuse w
+         | Accept =>
+           if negb (x509_verify r (dns_name_of c) f now) then Refuse R_X509
+           else names_step c f
+         end
+       end.
+
 (* ---------- GetClientTLSConfig ---------- *)
 (* a stored client profile: what SetClientTLSConfig keeps under a name *)
 Record profile := mkProfile {
